@@ -214,6 +214,15 @@ Theorem c02_weight2_source_refuted : exists stored right,
 Proof. exact weight2_source_refuted. Qed.
 Print Assumptions c02_weight2_source_refuted.
 
+Theorem c02_cond_filter_error_iff : forall l,
+  snd (cond_objs l) = true <-> (forall t, In t l -> snd t <> 0) /\ (exists t, In t l /\ snd t = 2).
+Proof. exact cond_objs_error_iff. Qed.
+Print Assumptions c02_cond_filter_error_iff.
+
+Example c02_cond_chunk_ex : cond_chunk [(4, 1); (5, 2)] = Ch [] true /\ cond_chunk [(4, 1); (5, 2); (6, 0)] = Ch [6] false /\
+  cond_chunk [(4, 1)] = Ch [] false.
+Proof. exact cond_chunk_ex. Qed.
+
 Example c02_source_ex : nodupb (map fst ([(1, 0)] ++ [(2, 1); (3, 0); (5, 2)])) = true /\
   source_impl [(1, 0)] [(2, 1); (3, 0); (5, 2)] = ([1; 3], false).
 Proof. exact source_partial_ex. Qed.
